@@ -14,6 +14,6 @@ Monitor ==
     Ev.e = "cycle" =>
         /\ Check("EndsWithResultOrError", Ev.sig, Ev.outcome \in AllowedOutcomes)
         /\ Check("NoCosignatureFromGarbage", "-",
-                 Ev.outcome = "result" => Ev.cp \notin {"badsig", "truncated", "random", "status404", "status500", "empty", "oversized"})
+                 Ev.outcome = "result" => Ev.cp \notin {"badsig", "truncated", "random", "status404", "status500", "empty", "oversized", "json-odd-types"})
 Done == TLCGet("stats").diameter - 1 = Len(Trace)
 =============================================================================
